@@ -602,3 +602,222 @@ Proof.
     exists c'. split; [assumption | congruence].
   - left. exists c'. split; [assumption | symmetry; assumption].
 Qed.
+
+(* ================================================================== Prune as a step of a history: the invariant *)
+Definition result_state (r : result) : pstate := mkPS (r_changes r) (r_tasks r) (r_warnings r) (r_notices r).
+
+(* what AddTask establishes and every step keeps: change ids are distinct; every task a change lists exists and is linked back
+   to it; no task is listed by two changes *)
+Definition wf (s : pstate) : Prop :=
+  NoDup (map pc_id (ps_changes s)) /\
+  (forall c id, In c (ps_changes s) -> In id (pc_tasks c) -> exists t, In t (ps_tasks s) /\ pt_id t = id /\ pt_change t = pc_id c) /\
+  (forall c d id, In c (ps_changes s) -> In d (ps_changes s) -> In id (pc_tasks c) -> In id (pc_tasks d) -> pc_id c = pc_id d).
+
+Lemma wf_listing_ok : forall s, wf s -> listing_ok (sort_changes (ps_changes s)) s.
+Proof.
+  intros s (W1 & W2 & W3). repeat split.
+  - intros c Hc. apply (proj2 (sort_changes_in _ _)). assumption.
+  - intros c id Hc Hid. apply (proj1 (sort_changes_in _ _)) in Hc. destruct (W2 c id Hc Hid) as [t [Ht [E1 E2]]].
+    exists (pt_spawn t), t. repeat split; assumption.
+  - intros c d id Hc Hd. apply (proj1 (sort_changes_in _ _)) in Hc. apply (proj1 (sort_changes_in _ _)) in Hd. apply W3; assumption.
+Qed.
+
+Lemma tasks_kept_with_change_strong : forall p order s id ch sp,
+  has_task (ps_tasks s) id ch sp ->
+  (forall c, In (c, RemoveReady) (vs_of p order) -> mem id (pc_tasks c) = false) ->
+  (has_id (r_changes (prune_with p order s)) ch \/ prune_limit p <= sp) ->
+  has_task (r_tasks (prune_with p order s)) id ch sp.
+Proof.
+  intros p order s id ch sp Ht Hno Hl.
+  destruct (prune_with_changes p order s) as (tks & ab & A & _ & _ & Hback).
+  destruct (apply_keeps_task _ _ _ _ _ _ _ _ _ _ _ A Ht Hno) as [t [Hin [E1 [E2 E3]]]].
+  exists t. split; [|repeat split; assumption]. apply Hback; [assumption|].
+  destruct Hl as [[c [Hc Hcid]]|Hl]; [left | right; lia].
+  apply existsb_exists. exists c. split; [assumption|]. rewrite E2, Hcid. apply N.eqb_refl.
+Qed.
+
+Lemma NoDup_map_filter' : forall A B (f : A -> B) (q : A -> bool) l, NoDup (map f l) -> NoDup (map f (filter q l)).
+Proof.
+  intros A B f q l. induction l as [|x l IH]; intros H; simpl; [constructor|]. simpl in H. inversion H as [|? ? Hx Hl]; subst.
+  destruct (q x); simpl; [constructor|]; try (apply IH; assumption).
+  intro Hin. apply Hx. apply in_map_iff in Hin. destruct Hin as [y [E Hy]]. apply filter_In in Hy. apply in_map_iff. exists y. tauto.
+Qed.
+
+Lemma apply_nodup_ids : forall p vs chs tks ab chs' tks' ab',
+  apply p vs chs tks ab = (chs', tks', ab') -> NoDup (map pc_id chs) -> NoDup (map pc_id chs').
+Proof.
+  intros p vs. induction vs as [|[c d] vs IH]; intros chs tks ab chs' tks' ab' H Hn; simpl in H.
+  - inversion H; subst; assumption.
+  - destruct d.
+    + eapply IH; eassumption.
+    + eapply IH; [eassumption|]. apply NoDup_map_filter'. assumption.
+    + eapply IH; [eassumption|]. rewrite map_map.
+      rewrite (map_ext _ pc_id); [assumption|]. intros x. destruct (pc_id x =? pc_id c)%N; reflexivity.
+    + eapply IH; [eassumption|]. apply NoDup_map_filter'. assumption.
+Qed.
+
+(* Prune keeps the invariant (for every clock and parameters) *)
+Theorem prune_preserves_wf : forall p s, wf s -> wf (result_state (prune p s)).
+Proof.
+  intros p s W. pose proof (wf_listing_ok s W) as L. destruct W as (W1 & W2 & W3). unfold prune in *.
+  set (order := sort_changes (ps_changes s)) in *.
+  destruct (prune_with_changes p order s) as (tks & ab & A & _). unfold wf, result_state. simpl. repeat split.
+  - eapply apply_nodup_ids; eassumption.
+  - intros c' id Hc Hid.
+    destruct (apply_changes_origin _ _ _ _ _ _ _ _ _ A Hc) as [c [Hcs [Eid Etk]]].
+    rewrite <- Etk in Hid. destruct (W2 c id Hcs Hid) as [t [Ht [E1 E2]]].
+    assert (Hco : In c order) by (apply (proj2 (sort_changes_in _ _)); assumption).
+    destruct (tasks_kept_with_change_strong p order s id (pc_id c) (pt_spawn t)) as [t' [Ht' [F1 [F2 F3]]]].
+    + exists t. repeat split; assumption.
+    + intros x Hx. destruct (mem id (pc_tasks x)) eqn:M; [|reflexivity]. exfalso. apply mem_In in M.
+      pose proof (visit_in _ _ _ _ _ Hx) as [Hxo _]. destruct L as (_ & _ & L2).
+      pose proof (L2 x c id Hxo Hco M Hid) as E.
+      destruct (prune_completes p order s) as (_ & R & _). apply (R x RemoveReady Hx eq_refl).
+      exists c'. split; [assumption | congruence].
+    + left. exists c'. split; [assumption | symmetry; assumption].
+    + exists t'. repeat split; [assumption | assumption | congruence].
+  - intros c' d' id Hc Hd Hic Hid.
+    destruct (apply_changes_origin _ _ _ _ _ _ _ _ _ A Hc) as [c [Hcs [Ec Etc]]].
+    destruct (apply_changes_origin _ _ _ _ _ _ _ _ _ A Hd) as [d [Hds [Ed Etd]]].
+    rewrite <- Etc in Hic. rewrite <- Etd in Hid. rewrite <- Ec, <- Ed. eapply W3; eassumption.
+Qed.
+
+(* ---- every other step keeps the invariant *)
+Lemma maxl_ge : forall l x, In x l -> (x <= maxl l)%N.
+Proof. induction l as [|y l IH]; intros x H; simpl in *; [contradiction|]. destruct H as [H|H]; [subst; lia | specialize (IH x H); lia]. Qed.
+
+Lemma NoDup_snoc_N : forall (l : list N) x, NoDup l -> ~ In x l -> NoDup (l ++ [x]).
+Proof.
+  intros l x H Hx. induction H as [|y l Hy Hl IH]; simpl; [constructor; [intros []|constructor]|].
+  constructor.
+  - intro Hin. apply in_app_or in Hin. destruct Hin as [Hin|[Hin|[]]]; [contradiction|]. subst. apply Hx. left; reflexivity.
+  - apply IH. intro Hin. apply Hx. right. assumption.
+Qed.
+
+Lemma listed_le : forall (l : list pchange) x id, In x l -> In id (pc_tasks x) -> (id <= maxl (concat (map pc_tasks l)))%N.
+Proof.
+  intros l x id Hx Hid. apply maxl_ge. apply in_concat. exists (pc_tasks x). split; [apply in_map; assumption | assumption].
+Qed.
+
+Lemma wf_map_changes : forall (g : pchange -> pchange) chs tks ws ns,
+  (forall x, pc_id (g x) = pc_id x /\ pc_tasks (g x) = pc_tasks x) -> wf (mkPS chs tks ws ns) -> wf (mkPS (map g chs) tks ws ns).
+Proof.
+  intros g chs tks ws ns Hg (W1 & W2 & W3). unfold wf in *. simpl in *. repeat split.
+  - rewrite map_map. rewrite (map_ext _ pc_id); [assumption | intros x; apply Hg].
+  - intros c id Hc Hid. apply in_map_iff in Hc. destruct Hc as [x [E Hx]]. subst c. destruct (Hg x) as [G1 G2].
+    rewrite G2 in Hid. rewrite G1. apply W2; assumption.
+  - intros c d id Hc Hd Hic Hid. apply in_map_iff in Hc. destruct Hc as [x [E Hx]]. apply in_map_iff in Hd. destruct Hd as [y [E' Hy]].
+    subst c d. destruct (Hg x) as [G1 G2]. destruct (Hg y) as [G3 G4]. rewrite G2 in Hic. rewrite G4 in Hid. rewrite G1, G3.
+    eapply W3; eassumption.
+Qed.
+
+Lemma hstep_wf : forall s o, wf s -> wf (hstep s o).
+Proof.
+  intros s o W. destruct o as [spawn attrs|c spawn st|t st|c r|x|x|p]; simpl.
+  - (* NewChange *)
+    destruct W as (W1 & W2 & W3). unfold wf. simpl. repeat split.
+    + rewrite map_app. simpl. apply NoDup_snoc_N; [assumption|]. intro Hin. apply maxl_ge in Hin. unfold next_change in Hin. lia.
+    + intros c id Hc Hid. apply in_app_or in Hc. destruct Hc as [Hc|[Hc|[]]]; [apply W2; assumption | subst c; simpl in Hid; contradiction].
+    + intros c d id Hc Hd Hic Hid. apply in_app_or in Hc. apply in_app_or in Hd.
+      destruct Hc as [Hc|[Hc|[]]]; [|subst c; simpl in Hic; contradiction].
+      destruct Hd as [Hd|[Hd|[]]]; [|subst d; simpl in Hid; contradiction]. eapply W3; eassumption.
+  - (* NewTask *)
+    destruct (existsb (fun x => (pc_id x =? c)%N) (ps_changes s)).
+    + destruct W as (W1 & W2 & W3). unfold wf. simpl.
+      set (tid := next_task s).
+      set (f := fun x => if (pc_id x =? c)%N then mkPC (pc_id x) (pc_spawn x) (pc_ready x) (pc_tasks x ++ [tid]) (pc_attrs x) else x).
+      assert (Fid : forall x, pc_id (f x) = pc_id x) by (intros x; unfold f; destruct (pc_id x =? c)%N; reflexivity).
+      assert (Fresh : forall x, In x (ps_changes s) -> ~ In tid (pc_tasks x)).
+      { intros x Hx Hin. pose proof (listed_le _ _ _ Hx Hin) as Hle. unfold tid, next_task in Hle. lia. }
+      assert (Flist : forall x id, In id (pc_tasks (f x)) -> In id (pc_tasks x) \/ (id = tid /\ pc_id x = c)).
+      { intros x id Hin. unfold f in Hin. destruct (pc_id x =? c)%N eqn:E; [|left; assumption]. simpl in Hin.
+        apply in_app_or in Hin. destruct Hin as [Hin|[Hin|[]]]; [left; assumption | right; split; [symmetry; assumption | apply N.eqb_eq; assumption]]. }
+      repeat split.
+      * rewrite map_map. rewrite (map_ext _ pc_id); assumption.
+      * intros c' id Hc Hid. apply in_map_iff in Hc. destruct Hc as [x [E Hx]]. subst c'. rewrite Fid.
+        destruct (Flist x id Hid) as [Hold|[Hnew Hcx]].
+        -- destruct (W2 x id Hx Hold) as [t [Ht E]]. exists t. split; [apply in_or_app; left; assumption | assumption].
+        -- exists (mkPT tid st spawn c). split; [apply in_or_app; right; left; reflexivity|]. simpl. split; congruence.
+      * intros c' d' id Hc Hd Hic Hid. apply in_map_iff in Hc. destruct Hc as [x [E Hx]]. apply in_map_iff in Hd. destruct Hd as [y [E' Hy]].
+        subst c' d'. rewrite !Fid. destruct (Flist x id Hic) as [Hx1|[Hx1 Hx2]]; destruct (Flist y id Hid) as [Hy1|[Hy1 Hy2]].
+        -- eapply W3; eassumption.
+        -- exfalso. subst id. exact (Fresh x Hx Hx1).
+        -- exfalso. subst id. exact (Fresh y Hy Hy1).
+        -- congruence.
+    + destruct W as (W1 & W2 & W3). unfold wf. simpl. repeat split; try assumption.
+      intros c' id Hc Hid. destruct (W2 c' id Hc Hid) as [t [Ht E]]. exists t. split; [apply in_or_app; left; assumption | assumption].
+  - (* SetStatus *)
+    destruct W as (W1 & W2 & W3). unfold wf. simpl. repeat split; try assumption.
+    intros c id Hc Hid. destruct (W2 c id Hc Hid) as [x [Hx [E1 E2]]].
+    exists (if (pt_id x =? t)%N then mkPT (pt_id x) st (pt_spawn x) (pt_change x) else x). split.
+    + apply in_map_iff. exists x. split; [reflexivity | assumption].
+    + destruct (pt_id x =? t)%N; simpl; split; assumption.
+  - (* SetReady *)
+    destruct s as [chs tks ws ns]. apply wf_map_changes; [|assumption]. intros x. simpl. destruct (pc_id x =? c)%N; split; reflexivity.
+  - destruct W as (W1 & W2 & W3). repeat split; assumption.
+  - destruct W as (W1 & W2 & W3). repeat split; assumption.
+  - apply (prune_preserves_wf p s W).
+Qed.
+
+Lemma wf_empty : wf (mkPS [] [] [] []).
+Proof. repeat split; simpl; try constructor; intros; contradiction. Qed.
+
+(* every state reachable from the empty state by any interleaving of the steps with Prune (any clocks, any parameters) is wf *)
+Theorem reachable_wf : forall ops, wf (hrun ops).
+Proof.
+  intros ops. unfold hrun. assert (G : forall l s, wf s -> wf (fold_left hstep l s)).
+  { induction l as [|o l IH]; intros s W; simpl; [assumption | apply IH, hstep_wf, W]. }
+  apply G, wf_empty.
+Qed.
+
+Lemma sort_nodup : forall l, NoDup (map pc_id l) -> NoDup (map pc_id (sort_changes l)).
+Proof.
+  assert (I : forall c l, NoDup (pc_id c :: map pc_id l) -> NoDup (map pc_id (insert_c c l))).
+  { intros c l. induction l as [|d l IH]; intros H; simpl; [assumption|].
+    assert (Hsw : NoDup (pc_id d :: map pc_id (insert_c c l))).
+    { inversion H as [|? ? Hc Hr]; subst. inversion Hr as [|? ? Hd Hl]; subst. constructor.
+      - intro Hin. apply in_map_iff in Hin. destruct Hin as [x [E Hx]]. apply insert_in in Hx. destruct Hx as [Hx|Hx].
+        + subst x. apply Hc. left. symmetry. assumption.
+        + apply Hd. rewrite <- E. apply in_map. assumption.
+      - apply IH. constructor; [intro X; apply Hc; right; assumption | assumption]. }
+    destruct (ready_lt d c); [exact Hsw|]. destruct (ready_lt c d); [exact H | exact Hsw]. }
+  induction l as [|c l IH]; intros H; simpl; [constructor|]. apply I. inversion H as [|? ? Hc Hl]; subst. constructor.
+  - intro Hin. apply Hc. apply in_map_iff in Hin. destruct Hin as [x [E Hx]]. apply (proj1 (sort_changes_in _ _)) in Hx.
+    rewrite <- E. apply in_map. assumption.
+  - apply IH. assumption.
+Qed.
+
+(* C09 as ONE invariant theorem: after ANY history from the empty state, for ANY clock and parameters, Prune
+   (1) leaves a state that is again reachable-wf; (2) removes a change only if it was finished and old / over the limit, or
+   empty, unready and old; (3) removes every task of a removed finished change and (4) no task listed by a change that stays;
+   (5) aborts only unready changes past the abort period that are not pending; (6) keeps at most maxReadyChanges finished
+   changes; (7) keeps exactly the unexpired warnings and notices - no hypothesis left about the state *)
+Theorem prune_invariant : forall ops p,
+  let s := hrun ops in let order := sort_changes (ps_changes s) in let r := prune p s in
+  wf (result_state r) /\
+  (forall id, has_id (ps_changes s) id -> ~ has_id (r_changes r) id ->
+     exists c count, In c order /\ pc_id c = id /\
+       ((exists rd, pc_ready c = Some rd /\ (rd < prune_limit p \/ p_max_ready p < count)) \/
+        (pc_ready c = None /\ pc_tasks c = [] /\ clamped_spawn p c < prune_limit p))) /\
+  (forall c id, In c order -> pc_ready c <> None -> ~ has_id (r_changes r) (pc_id c) -> mem id (pc_tasks c) = true ->
+     ~ In id (map pt_id (r_tasks r))) /\
+  (forall c' id, In c' (r_changes r) -> In id (pc_tasks c') -> In id (map pt_id (r_tasks r))) /\
+  (forall id, In id (r_aborted r) ->
+     exists c, In c order /\ pc_id c = id /\ pc_ready c = None /\ clamped_spawn p c < abort_limit p /\ is_pending p c = false) /\
+  (0 <= p_max_ready p -> Z.of_nat (length (filter kept_ready (vs_of p order))) <= p_max_ready p) /\
+  (forall x, (In x (r_warnings r) <-> In x (ps_warnings s) /\ x_last x + x_expire x >= p_now p) /\
+             (In x (r_notices r) <-> In x (ps_notices s) /\ x_last x + x_expire x >= p_now p)).
+Proof.
+  intros ops p s order r. pose proof (reachable_wf ops) as W. fold s in W. pose proof (wf_listing_ok s W) as L.
+  fold order in L. unfold r, prune. fold order.
+  split; [apply (prune_preserves_wf p s W)|].
+  split; [intros id H1 H2; apply (removed_only_if p order s id H1 H2)|].
+  split.
+  { intros c id Hc Hr Hgone Hm. apply (tasks_go_with_change p order s c id); try assumption.
+    - apply sort_nodup. apply W.
+    - exists c. split; [apply (proj1 (sort_changes_in _ _)); assumption | reflexivity]. }
+  split; [intros c' id Hc Hid; apply (kept_change_keeps_tasks p order s c' id L Hc Hid)|].
+  split; [intros id Hin; apply (abort_only_after p order s id Hin)|].
+  split; [intros H0; apply count_bound; assumption|].
+  intros x. apply (expired_gone p order s x).
+Qed.
